@@ -188,6 +188,13 @@ pub struct State<I> {
     pub spin_limit: usize,
     pub check_contract: bool,
     pub order: u64,
+    /// free-form tags (C13: key and arrival number)
+    pub tag: u64,
+    pub tag2: u64,
+    /// refuse writes for which there is no room (as a real bounded sink does)
+    pub strict: bool,
+    /// a write failed because there was no room, not because a fault was injected
+    pub unforced_write_failure: bool,
 }
 
 pub struct Mock<S, I> {
@@ -237,6 +244,10 @@ pub fn new_mock<S, I>(
         spin_limit: 20_000,
         check_contract: true,
         order: 0,
+        tag: 0,
+        tag2: 0,
+        strict: true,
+        unforced_write_failure: false,
     }));
     (
         Mock {
@@ -422,7 +433,12 @@ impl<S: Abstract, I> Sink<S> for Mock<S, I> {
         }
         s.credit = false;
         s.noprog = 0;
-        let fail = s.hit(Op::Send);
+        // a real bounded sink refuses an item it has no room for
+        let no_room = match s.model {
+            Model::Coupled => s.buf.len() >= s.cap,
+            Model::Independent => s.slots == 0,
+        };
+        let fail = s.hit(Op::Send) || (no_room && s.strict);
         let (v_ms, epoch, epoch_start, step) = (s.vms(), s.epoch, s.epoch_start, s.step);
         let idx = s.sent.len();
         let visible = !fail && s.model == Model::Independent;
@@ -440,6 +456,9 @@ impl<S: Abstract, I> Sink<S> for Mock<S, I> {
             step,
         });
         if fail {
+            if s.fault_fired.map(|(o, _)| o != Op::Send).unwrap_or(true) {
+                s.unforced_write_failure = true;
+            }
             s.failed_write = Some(item);
             s.oplog.push((Op::Send, 2));
             return Err(TErr("start_send"));
